@@ -60,24 +60,51 @@ class Split(Family):
             for k in (True, False):
                 yield dict(kind='boundary', data=hx((b'ab' + nl) * 3000), nl=hx(nl), keep=k)
                 yield dict(kind='boundary', data=hx(nl * 2050 + b'z'), nl=hx(nl), keep=k)
+        # sizes harvested from the code under test (literals, module/class constants, usual buffer sizes): a multi-byte
+        # newline starting at every offset around each of them; large inputs are given as a recipe and checked by the
+        # oracle alone (no model run above 300 kB)
+        import sizes
+        for c0 in sizes.harvested_sizes():
+            for nl in (NEWLINES[4], NEWLINES[8]):
+                for j in range(0, len(nl) + 1):
+                    if c0 - j > 0:
+                        yield dict(kind='harvest', recipe=[c0 - j, 6], nl=hx(nl), keep=(j % 2 == 0))
         # empty newline (assertion)
         yield dict(kind='emptynl', data=hx(b'abc'), nl='', keep=True)
 
+    @staticmethod
+    def _d(c):
+        if 'recipe' in c:
+            n, m = c['recipe']
+            nl = unhx(c['nl'])
+            return b'a' * n + nl + b'b' * m + nl
+        return unhx(c['data'])
+
     def model_line(self, c):
-        return L('split_lines', H(unhx(c['data'])), H(unhx(c['nl'])), Bool(c['keep']))
+        d = self._d(c)
+        if len(d) > 300000:
+            return None
+        return L('split_lines', H(d), H(unhx(c['nl'])), Bool(c['keep']))
 
     def impl_obs(self, c):
         from pydiffx.utils.text import split_lines
-        return res_lines(lambda: split_lines(unhx(c['data']), unhx(c['nl']), keep_ends=c['keep']))
+        d = self._d(c)
+        if len(d) > 300000:
+            try:
+                r = split_lines(d, unhx(c['nl']), keep_ends=c['keep'])
+                return '(big %d %s)' % (len(r), ' '.join(str(len(x)) for x in r[:8]))
+            except Exception as e:
+                return '(exc)'
+        return res_lines(lambda: split_lines(d, unhx(c['nl']), keep_ends=c['keep']))
 
     def nontrivial(self, c):
-        d, nl = unhx(c['data']), unhx(c['nl'])
+        d, nl = self._d(c), unhx(c['nl'])
         return bool(nl) and nl in d and len(d) > len(nl)
 
     def oracle(self, c, obs):
         """C16 stated directly on the implementation."""
         from pydiffx.utils.text import split_lines
-        d, nl = unhx(c['data']), unhx(c['nl'])
+        d, nl = self._d(c), unhx(c['nl'])
         if not d or not nl:
             return []
         out = []
@@ -209,6 +236,9 @@ class Spelling(Family):
         import streamlib as sl
         s = c['spelling']
         text = 'h\xe9llo\nw\n' if c['canonical'] != 'ascii' else 'hello\nw\n'
+        if c['canonical'].startswith('utf'):
+            # later lines that START with U+FEFF / U+FFFE: only the very first bytes of the content can be a byte order mark
+            text = 'h\xe9llo\n\ufeffw\n\ufffex\n \ufeff\n'
         return [['write_preamble', sl.S(text), sl.S(s), 'omitted', None, None],
                 ['new_change', sl.S(s)],
                 ['write_preamble', sl.S(text + 'x'), None, {'i': 2}, sl.S('dos'), None],
